@@ -46,7 +46,12 @@ def run_cases(cases, profile="dev", timeout=300):
         return []
     exe = build(profile)
     inp = "\n".join(json.dumps(c) for c in cases) + "\n"
-    p = subprocess.run([exe], input=inp, stdout=subprocess.PIPE, stderr=subprocess.PIPE, text=True, timeout=timeout)
+    try:
+        p = subprocess.run([exe], input=inp, stdout=subprocess.PIPE, stderr=subprocess.PIPE, text=True, timeout=timeout)
+    except subprocess.TimeoutExpired as e:
+        so = e.stdout.decode() if isinstance(e.stdout, bytes) else (e.stdout or "")
+        done = [json.loads(l) for l in so.split("\n") if l.startswith("{")]
+        return done + [{"hang": "the real code did not return within %ds" % timeout}] + [{"crash": "not run (previous case hung)"}] * (len(cases) - len(done) - 1)
     lines = [l for l in p.stdout.split("\n") if l.startswith("{")]       # the real code prints progress lines of its own
     out = [json.loads(l) for l in lines]
     out += [{"crash": "replay process ended (rc=%s) %s" % (p.returncode, p.stderr[-300:])}] * (len(cases) - len(out))
@@ -121,6 +126,10 @@ def deviation(case, res):
     """None if the native outcome conforms to the reference, else a description"""
     if "panic" in res or "crash" in res:
         return "panic/crash: %s" % str(res)[:200]
+    if case.get("degenerate"):
+        if res.get("outside") != ["outside/sentinel"]:
+            return "files outside the served directory changed: %s" % res.get("outside")
+        return None
     exp = expect_hub(case)
     if not res.get("ok"):
         return "handler returned an I/O error on a healthy file system: %s" % res.get("err")
@@ -135,6 +144,14 @@ def deviation(case, res):
     if res.get("outside") != exp["outside"]:
         return "files outside the served directory changed: %s" % res.get("outside")
     after = dict(res.get("tree_after", {}))
+    if case.get("stale_staging"):
+        # staging names are reserved: whatever is left under them is not judged, every OTHER path is
+        for k in list(after):
+            if k.endswith(".copia-tmp"):
+                after.pop(k)
+        for k in list(exp["tree"]):
+            if k.endswith(".copia-tmp"):
+                exp["tree"].pop(k)
     if "conflict_copy_of" in exp:
         path, data = exp["conflict_copy_of"]
         sib = [k for k in after if k.startswith(path + ".conflict-")]
@@ -167,6 +184,18 @@ def scenarios():
                                     "hash": hsh, "trailing": hx(trailing), "chunk": chunk})
             out.append({"fn": "hub_step", "tree": tree, "op": "delete", "path": path, "expected": e})
         out.append({"fn": "hub_step", "tree": tree, "op": "get", "path": path})
+    # names of the served directory itself: only "nothing outside the root, no panic" is judged
+    for path in ("", ".", "./", ".//"):
+        for e in (None, "STALE"):
+            out.append({"fn": "hub_step", "tree": tree, "op": "put", "path": path, "expected": e, "content": hx(b"abc"), "hash": "CONTENT", "degenerate": True})
+        out.append({"fn": "hub_step", "tree": tree, "op": "delete", "path": path, "expected": None, "degenerate": True})
+        out.append({"fn": "hub_step", "tree": tree, "op": "get", "path": path, "degenerate": True})
+    # a stale staging file left behind by a write that died mid-stream must not leak into a later, shorter write
+    stale = dict(tree)
+    stale["a.txt.copia-tmp"] = hx(b"STALE-BYTES-OF-A-DEAD-WRITE")
+    stale["new.txt.copia-tmp"] = hx(b"STALE-BYTES-OF-A-DEAD-WRITE")
+    for path, e in (("a.txt", "CURRENT"), ("new.txt", None), ("a.txt", "STALE")):
+        out.append({"fn": "hub_step", "tree": stale, "op": "put", "path": path, "expected": e, "content": hx(b"abc"), "hash": "CONTENT", "stale_staging": True})
     # declared length longer than the stream (truncated upload) and shorter than the content
     out.append({"fn": "hub_step", "tree": tree, "op": "put", "path": "new.txt", "expected": None, "content": hx(b"abc"), "len": 10, "hash": "CONTENT"})
     out.append({"fn": "hub_step", "tree": tree, "op": "put", "path": "a.txt", "expected": "CURRENT", "content": hx(b"abc"), "len": 10, "hash": "CONTENT"})
@@ -193,7 +222,7 @@ def conformance(R, pid, oid, key, only=None):
 
 # ----------------------------------------------------------------- system-call order of the real code (strace)
 
-SYSCALLS = "openat,open,creat,rename,renameat,renameat2,unlink,unlinkat,flock,fsync,fdatasync,mkdir,mkdirat,write,close"
+SYSCALLS = "openat,open,creat,rename,renameat,renameat2,unlink,unlinkat,flock,fsync,fdatasync,mkdir,mkdirat,write,close,statx,newfstatat,lstat,stat"
 
 
 def strace_case(case, profile="dev"):
@@ -249,6 +278,10 @@ def logical_trace(ev, path):
             if paths:
                 mode = "create" if ("O_CREAT" in args or name == "creat") else "open"
                 out.append((mode, _lname(paths[-1], live), rc))
+        elif name in ("statx", "newfstatat", "lstat", "stat"):
+            paths = re.findall(r'"([^"]*)"', args)
+            if paths:
+                out.append(("stat", _lname(paths[-1], live), rc))
         elif name == "write":
             m = re.search(r"<([^>]*)>", args)
             if m and "/world/" in m.group(1):
@@ -277,6 +310,8 @@ def required_order(what, trace):
             if pred(ops[i]):
                 return i
         return -1
+    if any((o[0] == "remove" and o[1] == "lockfile") or (o[0] == "rename" and "lockfile" in o[1]) for o in ops):
+        return "the lock file is removed/renamed while in use (a waiter then holds a lock on an unlinked inode)"
     if what == "handle_put":
         ren = idx(lambda o: o[0] == "rename" and o[1][0] == "staging")
         if ren < 0:
@@ -285,7 +320,7 @@ def required_order(what, trace):
         sy = idx(lambda o: o == ("sync", "staging"))
         lk = idx(lambda o: o == ("lock", "lockfile"))
         ul = idx(lambda o: o == ("unlock", "lockfile"), lk + 1 if lk >= 0 else 0)
-        rd = idx(lambda o: o == ("open", "live"), lk + 1 if lk >= 0 else 0)
+        rd = idx(lambda o: o in (("open", "live"), ("stat", "live")), lk + 1 if lk >= 0 else 0)
         if any(o == ("create", "live") for o in ops[cr if cr >= 0 else 0:]) or any(o == ("write", "live") for o in ops[cr if cr >= 0 else 0:]):
             return "the live path is opened for writing directly"
         if cr < 0 or not (cr < ren):
@@ -306,7 +341,7 @@ def required_order(what, trace):
             return None
         lk = idx(lambda o: o == ("lock", "lockfile"))
         ul = idx(lambda o: o == ("unlock", "lockfile"), lk + 1 if lk >= 0 else 0)
-        rd = idx(lambda o: o == ("open", "live"), lk + 1 if lk >= 0 else 0)
+        rd = idx(lambda o: o in (("open", "live"), ("stat", "live")), lk + 1 if lk >= 0 else 0)
         if lk < 0 or not (lk < rm) or (ul >= 0 and ul < rm):
             return "the removal is not inside the exclusive-lock section"
         if rd < 0 or not (lk < rd < rm):
@@ -337,7 +372,7 @@ def order_check(R, oid, key, what):
                     start = i
                     break
             # include the hash read that may precede the lock in a broken ordering: back up over 'open live' events
-            while start > 0 and tr[start - 1][:2] == ("open", "live"):
+            while start > 0 and tr[start - 1][:2] in (("open", "live"), ("stat", "live")):
                 start -= 1
             breach = required_order(what, tr[start:])
             if breach:
